@@ -427,6 +427,12 @@ def minimize_lbfgsb(
             res.status = istate.warnflag
             res.message = istate.task_str
             res.success = istate.is_success
+            if np.atleast_2d(checkpoint.hess_inv.sk).shape[0] > maxcor:
+                # maxcor reduced: keep the most recent corrections, as a restart does
+                res.hess_inv = LbfgsInvHessProduct(
+                    np.atleast_2d(checkpoint.hess_inv.sk)[-maxcor:],
+                    np.atleast_2d(checkpoint.hess_inv.yk)[-maxcor:],
+                )
             return res
 
     # Compute the first gradient if no checkpoint provided
